@@ -93,6 +93,15 @@ CHECKS = {
         "(quick, rotated by VERIF_SEED) / 128 (thorough) configurations.",
    technique="exhaustive input enumeration + explicit-state BFS of histories on the implementation, envelope oracle at the driver interface",
    ref="3/C08"),
+ "C20": dict(cat="model_checking",
+   text="Explicit-state BFS over coin switches, service credits, credit events, start/add-player requests, game ends, "
+        "expirations and free-play toggles for 6 pricing configurations on the real credits mode (fake game); the "
+        "reference balance is computed with exact Fractions from the pricing table written out of the configuration; "
+        "bounds 0..max, start gate, exact deduction, earnings audits and credit strings checked after every transition.",
+   note="Trusted: virtual loop, Pricing reference in props/c20.py. What an expiry deadline does while free play is on or "
+        "a game runs is not judged. BFS depth 5 (quick) / 7 (thorough).",
+   technique="explicit-state BFS of the implementation with a reference model (replay + fork snapshots)",
+   ref="3/C20"),
 }
 NOT_YET = "check not built yet in this revision (planned, see DESIGN.md section 7)"
 
